@@ -67,6 +67,36 @@ theorem new_image_interpreted (p : Proto) : newImageGen p = some (newImage p) :=
   cases p <;> decide +kernel
 
 open VaxisModel.Model.ImageProto in
+/-- **`graphicsProtocol` is interpreted from the source**: for every combination of the two
+notifications and of the pixel size being known, running the regenerated guarded assignments of
+`New` (with `applyQuirks` where it is called; environment overrides unset) gives the hand model
+`detected` — in particular every guard and constant is one the interpreter knows.  A changed
+comparison, constant, arm or order of these statements breaks this theorem. -/
+theorem detected_interpreted (s k p : Bool) : detectedGen ⟨s, k, p⟩ = some (detected s k p) := by
+  cases s <;> cases k <;> cases p <;> decide +kernel
+
+open VaxisModel.Model.ImageProto in
+/-- Non-vacuity of the interpreter: with the constant of the sixel arm changed to `kitty` (self-test m2)
+a sixel-only terminal ends with the kitty protocol; an unknown guard gives `none`; and without the
+default arm of the `VAXIS_GRAPHICS` switch nothing raises the protocol to the block fallback. -/
+example :
+    detectedFrom [("New", ["for", "select ev := <-vx.queue", "type capabilitySixel", "if vx.graphicsProtocol < kitty"], "kitty")] ⟨true, false, true⟩ = some .kitty ∧
+    detectedFrom [("New", ["if vx.foo()"], "kitty")] ⟨true, true, true⟩ = none ∧
+    detectedFrom [("New", ["if ws.XPixel == 0 || ws.YPixel == 0"], "halfBlock")] ⟨false, false, true⟩ = some .noGraphics := by decide +kernel
+
+open VaxisModel.Model.ImageProto in
+/-- The loop's two raising arms commute and are idempotent, so the result does not depend on the
+order or repetition of the two notifications (the interpreter runs them once, in source order);
+and the regenerated list covers every assignment of the field in the package (`Gen.Writers.graphicsProtocolWrites`). -/
+theorem protocol_steps_complete_and_order_free :
+    (∀ p a b : Proto, raise (raise p a) b = raise (raise p b) a ∧ raise (raise p a) a = raise p a) ∧
+    (protocolSteps.filter fun s => s.2.2 != "call applyQuirks").length = VaxisModel.Gen.Writers.graphicsProtocolWrites.length ∧
+    (protocolSteps.filter fun s => s.2.2 == "call applyQuirks") = [("New", [], "call applyQuirks")] := by
+  refine ⟨?_, by decide +kernel, by decide +kernel⟩
+  intro p a b
+  cases p <;> cases a <;> cases b <;> decide
+
+open VaxisModel.Model.ImageProto in
 /-- **Pixel protocols only when advertised** (over the model of the start-up's `graphicsProtocol`
 and the interpreted `NewImage`): a kitty image is handed out only if the kitty graphics reply
 arrived, a sixel image only if sixel was advertised, and without a known pixel size or without
